@@ -17,6 +17,12 @@ import (
 var registered map[string]bool
 
 func runHistory(out *hx.Out, h history, origin string) {
+	if h.Big != nil {
+		bc := *h.Big
+		bc.Stack = h.Stack
+		addBig(out, runBig(bc, origin))
+		return
+	}
 	res := execHistory(h)
 	if os.Getenv("C03_DEBUG") != "" {
 		debugDiffs(h, res)
@@ -70,6 +76,26 @@ func runHistory(out *hx.Out, h history, origin string) {
 			}
 		}
 		countFeatures(out, h, res)
+		if h.Backend != "" {
+			out.Count("backend:" + h.Backend)
+		}
+		for _, s := range res.steps {
+			if s.Again {
+				out.Count("iterator:complete pass made again over the same value:" + s.Op.Kind)
+			}
+			for _, p := range s.Pre {
+				out.Count(fmt.Sprintf("iterator:pass stopped at yield %d:%s", p.K, s.Op.Kind))
+			}
+			if h.Backend != "" && s.Via.Kind == "read" && !strings.HasPrefix(s.Op.Digest, "sha256:") && (s.Op.Kind == "GetBlob" || s.Op.Kind == "GetBlobRange") {
+				out.Count("algstore:read through the stack of a blob under " + strings.SplitN(s.Op.Digest, ":", 2)[0])
+			}
+			if h.Backend != "" && s.Via.Kind == "read" && !strings.HasPrefix(s.Op.Digest, "sha256:") && s.Op.Kind == "GetManifest" {
+				out.Count("algstore:read through the stack of a manifest under " + strings.SplitN(s.Op.Digest, ":", 2)[0])
+			}
+			if h.Backend != "" && s.Via.Kind == "desc" && (s.Op.Kind == "PushBlob" && !strings.HasPrefix(s.Op.Desc.Digest, "sha256:") || s.Op.Kind == "WCommit" && !strings.HasPrefix(s.Op.Digest, "sha256:")) {
+				out.Count("algstore:push through the stack under another algorithm:" + s.Op.Kind)
+			}
+		}
 	}
 	// the corpus case of a recorded finding also runs in strict mode, where every failure of
 	// obs_ok is reported: the driver then matches it with known_findings.json
@@ -268,7 +294,7 @@ func main() {
 	registered = registeredFindings()
 	for _, raw := range hx.LoadCorpus(cfg.Corpus) {
 		var r input
-		if json.Unmarshal(raw, &r) == nil && len(r.Input.Ops) > 0 {
+		if json.Unmarshal(raw, &r) == nil && (len(r.Input.Ops) > 0 || r.Input.Big != nil) {
 			runHistory(out, r.Input, "corpus")
 		}
 	}
@@ -277,7 +303,14 @@ func main() {
 	if cfg.Thorough() {
 		n = 4000
 	}
+	// the large contents run beside the histories (their own registries and servers)
+	bigCases := genBig(rand.New(rand.NewSource(cfg.Seed+1)), cfg.Thorough())
+	bigDone := make(chan []bigOut, 1)
+	go func() { bigDone <- runBigs(bigCases, "big-grid") }()
 	generate(out, rnd, n)
+	for _, b := range <-bigDone {
+		addBig(out, b)
+	}
 	out.Extra["note"] = fmt.Sprintf("tier=%s seed=%d", cfg.Tier, cfg.Seed)
 	if err := out.Flush(); err != nil {
 		panic(err)
@@ -290,7 +323,15 @@ func generate(out *hx.Out, rnd *rand.Rand, n int) {
 		if i%4 != 0 {
 			st = genStack(rnd)
 		}
-		h := genHistory(rnd, st, 8+rnd.Intn(25))
+		flavour := ""
+		switch i % 8 {
+		case 3:
+			flavour = "alg" // blobs under sha256 / sha384 / sha512 digests, over algstore
+		case 5, 6:
+			flavour = "listy" // many tags, small pages, iterators iterated again
+			st = listyStack(rnd)
+		}
+		h := genHistory(rnd, st, 8+rnd.Intn(25), flavour)
 		runHistory(out, h, "random")
 	}
 }
